@@ -368,8 +368,54 @@ def main():
     X = None
     os.makedirs(os.path.join(REPLAYS, PROP), exist_ok=True)
     try:
-        X = extract()
         binary = build_native("header_driver")
+        # ---- stage 0 (not solver-decided; a guard that needs only the regex literal, not its translation): systematically generated
+        # headers through the real parser and the real regex crate
+        import itertools, subprocess
+        psrc_ = read_repo(F_PLUGIN)
+        mlit = re.search(r'static OPERATION_REGEX: Lazy<Regex> =\s*Lazy::new\(\|\|\s*\{?\s*Regex::new\(\s*r(#*)"(.*?)"\1\s*,?\s*\)', psrc_, re.S)
+        if mlit:
+            pat_ = mlit.group(2)
+            names = ["A", "Ab_c", "_x", "a1", "Q2_", "field", "entrypointX", "x_y_z", "B9"]
+            ws1 = [" ", "  ", "\t", "\n"]
+            around = ["", " "]
+            conts = [" {\n id\n}", "{\n id\n}", " @component {\n id\n}", "@component {\n id\n}", "($a: ID!) {\n id\n}", ""]
+            gtexts = []
+            for kw in ("entrypoint", "field", "pointer"):
+                for w in ws1:
+                    for t_, f_ in itertools.product(names[:5], names):
+                        for a1, a2 in itertools.product(around, repeat=2):
+                            for c in (conts if kw != "entrypoint" else ["", " @lazyLoad", "\n"]):
+                                if kw == "pointer":
+                                    c = " to Node" + c if c.startswith((" {", "{")) else c
+                                gtexts.append((kw + w + t_ + a1 + "." + a2 + f_ + c).encode())
+            gtexts = gtexts[::3]
+            pr_ = subprocess.run([binary, pat_], input="\n".join(t.hex() for t in gtexts) + "\n", capture_output=True, text=True, timeout=300)
+            if pr_.returncode == 0:
+                n_guard = 0
+                for t, l in zip(gtexts, pr_.stdout.splitlines()):
+                    c_, p_ = l.split(" P:")
+                    c_ = c_[2:]
+                    n_guard += 1
+                    if c_ == "ERR":
+                        continue            # the compiler rejects the literal: nothing to compare
+                    kc = c_.split("|")
+                    kp = p_.split("|") if p_ != "ERR" else None
+                    same = kp is not None and kc[1:] == kp[1:] and ({"entrypoint": "E", "field": "F", "pointer": "F"}[kc[0]] == {"entrypoint": "E", "field": "F", "pointer": "F"}.get(kp[0]))
+                    if not same:
+                        rp = os.path.join(REPLAYS, PROP, "header_guard")
+                        os.makedirs(rp, exist_ok=True)
+                        with open(os.path.join(rp, "input.hex"), "w") as f:
+                            f.write(t.hex() + "\n")
+                        with open(os.path.join(rp, "REPLAY.md"), "w") as f:
+                            f.write("Property C28 (native guard): literal %r: compiler reads %s, plugin reads %s\nRun: bash %s/replay.sh\n" % (t, c_, p_, rp))
+                        with open(os.path.join(rp, "replay.sh"), "w") as f:
+                            f.write("#!/bin/bash\n%s '%s' < %s/input.hex\nexit 1\n" % (binary, pat_.replace("'", "'\\''"), rp))
+                        violations.append(("native guard: literal %r: compiler reads %s, plugin reads %s" % (t.decode("latin1"), c_, p_), rp))
+                        samples.append({"literal": t.decode("latin1"), "compiler": c_, "plugin": p_, "stage": "native guard"})
+                        break
+                samples.append({"native_guard_headers": n_guard})
+        X = extract()
 
         def native(texts):
             import subprocess
